@@ -501,7 +501,7 @@ mod e2e {
         // request targets that are not origin-form: authority / absolute form, odd ports, userinfo, empty components
         for t in [":x/", "http://example.com/", "http://example.com:80/a.txt", "http://example.com:/a.txt", "http://example.com:x/", "//example.com/a.txt", "//:x/a", "http://user:pw@host/a.txt",
                   "http://[::1]/a.txt", "http://[::1]:x/", "example.com:443", "*", "http://", "http:///", "://", "/a.txt:80", "/:x", "//", "///", "http://a:99999999999999999999/", "/a.txt?x=http://b:x/",
-                  "ftp://a/b", "a://b:c@d:e/f?g#h", "/@", "//@:/", "http://@/", "http://:@:/"] {
+                  "ftp://a/b", "a://b:c@d:e/f?g#h", "/@", "//@:/", "http://@/", "http://:@:/", "a:b", "mailto:x", "urn:x", ":", "a:", ":b", "x:1", "?a=:b", "#:x"] {
             add(&format!("target {}", t), format!("GET {} HTTP/1.1\r\nHost: localhost\r\n\r\n", t));
             add(&format!("target post {}", t), format!("POST {} HTTP/1.1\r\nHost: localhost\r\nContent-Length: 0\r\n\r\n", t));
         }
@@ -972,6 +972,13 @@ mod parsers {
             let mm = m.clone();
             if panic::catch_unwind(move || { let c = std::io::Cursor::new(&mm[..]); let _ = crate::entry_point::config_file::read_config_file(c, "".to_string()); }).is_err() {
                 h.hit("parsers", "c20_panic_config_file", "read_config_file", &String::from_utf8_lossy(&m), "panic");
+            }
+        }
+        // the accessors of a parsed request (library entry points): any target text
+        for t in ["/", "/a?x=1#f", "", ":x/?a=b", "http://example.com/search?q=rust", "a:b", "?a=:b/c", "#", "?", "//", "/a b", "http://[::1]:x/?q", "x:99999999999999999999/?a"] {
+            let req = crate::request::Request { method: "GET".into(), request_uri: t.to_string(), http_version: "HTTP/1.1".into(), headers: vec![], body: vec![] };
+            if panic::catch_unwind(|| { let _ = req.get_query(); let _ = req.get_uri_query(); let _ = req.get_uri_path(); let _ = req.get_path(); }).is_err() {
+                h.hit("parsers", "c20_panic_request_accessors", "Request::get_query / get_uri_path", t, "panic");
             }
         }
         // C15: status lines that are not "<supported version> <registered code> <its phrase>" are rejected, the exact ones accepted
